@@ -174,8 +174,10 @@ func propLinearizable(c *Case) {
 		slotKeys[0] = append(slotKeys[0], collide(base, c.Int("lane", 0, 3), uint64(c.Int("a0", 1, 1<<30))*0x9E3779B97F4A7C15))
 	}
 
+	// slots 1-3 are three different keys of ONE shard (a bucket with several entries), the rest elsewhere
+	order := []int{0, 7, 8, 2, 6}
 	for s := 1; s < nslots; s++ {
-		slotKeys[s] = [][]byte{baseKeys[(s-1)*2%len(baseKeys)]}
+		slotKeys[s] = [][]byte{baseKeys[order[s-1]]}
 	}
 
 	slotOf := map[string]int{}
